@@ -190,37 +190,30 @@ CMR_ERROR CMRlinearhashtableArrayInsertBucketHash(CMR* cmr, CMR_LINEARHASHTABLE_
     
     /* We now double the size of the hash table. */
 
-    size_t newSize = 2 * hashtable->numBuckets;
-    CMR_CALL( CMRreallocBlockArray(cmr, &hashtable->buckets, newSize) );
-    for (size_t i = hashtable->numBuckets; i < newSize; ++i)
-      hashtable->buckets[i].keyLength = 0;
     size_t oldSize = hashtable->numBuckets;
+    size_t newSize = 2 * oldSize;
+    LinearhashtableArrayBucket* oldBuckets = NULL;
+    CMR_CALL( CMRallocBlockArray(cmr, &oldBuckets, oldSize) );
+    for (size_t i = 0; i < oldSize; ++i)
+      oldBuckets[i] = hashtable->buckets[i];
+    CMR_CALL( CMRreallocBlockArray(cmr, &hashtable->buckets, newSize) );
+    for (size_t i = 0; i < newSize; ++i)
+      hashtable->buckets[i].keyLength = 0;
     hashtable->numBuckets = newSize;
 
-    /* We re-insert each element based on its hash. */
+    /* We re-insert each element based on its hash into the emptied table; moving entries in place could leave an empty bucket
+     * in front of an entry that had been displaced by linear probing, which would make it unfindable. */
     for (size_t i = 0; i < oldSize; ++i)
     {
-      if (!hashtable->buckets[i].keyLength)
+      if (!oldBuckets[i].keyLength)
         continue;
-      
-      size_t j = linearhashtableArrayHashToBucket(hashtable, hashtable->buckets[i].hash);
-      CMRdbgMsg(2, "Hash %ld was at %d before and would like to be at %d.", hashtable->buckets[i].hash, i, j);
-      while (j != i && hashtable->buckets[j].keyLength)
+
+      size_t j = linearhashtableArrayHashToBucket(hashtable, oldBuckets[i].hash);
+      while (hashtable->buckets[j].keyLength)
         j = (j+1) % hashtable->numBuckets;
-      if (j == i)
-      {
-        CMRdbgMsg(1, "-> next available bucket is old one %d.\n", j);
-      }
-      else
-      {
-        CMRdbgMsg(1, "-> next available bucket is %d. Moving it there.\n", j);
-        hashtable->buckets[j].hash = hashtable->buckets[i].hash;
-        hashtable->buckets[j].keyIndex = hashtable->buckets[i].keyIndex;
-        hashtable->buckets[j].keyLength = hashtable->buckets[i].keyLength;
-        hashtable->buckets[j].value = hashtable->buckets[i].value;
-        hashtable->buckets[i].keyLength = 0;
-      }
+      hashtable->buckets[j] = oldBuckets[i];
     }
+    CMR_CALL( CMRfreeBlockArray(cmr, &oldBuckets) );
   }
   
   return CMR_OKAY;
